@@ -8,6 +8,7 @@
 //! trusted: R15: decode_next_hop: the statements up to the HMAC test verbatim as a function (key derivation external_body over uninterpreted rho_of/mu_of; HmacEngine is a stub that records key and the concatenation of its inputs in ghost fields; Hmac::from_engine is the uninterpreted hmac_sha256 of those; fixed_time_eq is equality); decrypting and parsing the payload after the gate are dropped and not claimed
 //! trusted: R15 (deep slices): the TLV type literal under which each of the three sender-side payload writers puts the keysend preimage and from which each of the two receiver-side readers takes it (five literals extracted from the TLV macro invocations of ln/msgs.rs); the TLV macros themselves are not verified
 //! trusted: R15 (deep slice): create_payment_onion_internal: the construction of the stripped RecipientOnionFields for a trampoline entry point and the condition of the refusal "Cannot pass payment_metadata to a blinded recipient" (first test under `if let Some(blinded_tail) = &path.blinded_tail`), verbatim as a function of the caller's fields; struct RecipientOnionFields is extracted (PaymentSecret is a 32-byte skeleton); building the trampoline and outer onions after the gate is dropped and not claimed here
+//! trusted: R15 (deep slice): create_payment_onion_internal from the build_onion_payloads call to the end, verbatim; build_onion_payloads / construct_onion_keys / construct_onion_packet are external_body over uninterpreted payloads, keys and packet (build_onion_payloads' amounts are proved above for build_onion_payloads_callback; the packet construction itself is not verified); R8: `.map_err(|_| APIError::InvalidRoute { err: <string> })` loses its message
 //! assume: every hop's fee_msat <= 21e17 (the total supply in msat): without it `cur_value_msat += hop.fee_msat()` can overflow u64 before the limit test (observation O5 in DESIGN)
 //! assume: the contract is for a path without blinded or trampoline tail (blinded_tail is None) whose final hop carries a non-zero amount; the other arms are kept in the verified text but unreachable under this precondition and not claimed
 //! trusted: assume_specification for core::cmp::max / core::cmp::min (std definitions): present in every unit so that a change that introduces them is verified instead of being rejected by the tool
@@ -349,6 +350,55 @@ pub struct PaymentSecret(pub [u8; 32]);
     if recipient_onion.payment_metadata.is_some() { return Err
 //@with
     if recipient_onion.payment_metadata.is_none() { return Err
+//@end
+}
+// ---- what the sender locks in on the first channel is what the onion's payloads were built for ---------------------------------
+pub mod onion_tail {
+use vstd::prelude::*;
+pub enum APIError { InvalidRoute { err: () } }
+pub struct Secp256k1 {}
+pub struct SecretKey { pub id: u64 }
+#[derive(Clone, Copy)] pub struct PaymentHash(pub [u8; 32]);
+pub struct PaymentPreimage(pub [u8; 32]);
+pub struct InvoiceRequest {}
+pub struct TrampolineOnionPacket { pub id: u64 }
+pub struct RecipientOnionFields { pub id: u64 }
+pub struct Path { pub id: u64, pub delta: u32 }
+impl Path { #[verifier::external_body] pub fn total_cltv_expiry_delta(&self) -> (r: u32) ensures r == self.delta { unimplemented!() } }
+pub struct Payloads { pub id: int }
+pub struct OnionKeys { pub id: int }
+pub struct OnionPacket { pub id: int }
+pub uninterp spec fn payloads_of(path: Path, fields: RecipientOnionFields, height: u32, keysend: Option<PaymentPreimage>, tramp: Option<TrampolineOnionPacket>) -> int;
+pub uninterp spec fn amount_of(path: Path, fields: RecipientOnionFields, tramp: Option<TrampolineOnionPacket>) -> u64;
+pub uninterp spec fn keys_of(path: Path, session_priv: SecretKey) -> int;
+pub uninterp spec fn packet_of(payloads: int, keys: int, seed: [u8; 32], hash: PaymentHash) -> int;
+// build_onion_payloads: contract proved for build_onion_payloads_callback above (amounts, expiries, totals), restated over uninterpreted payloads
+#[verifier::external_body] pub fn build_onion_payloads(path: &Path, recipient_onion: &RecipientOnionFields, starting_htlc_offset: u32, keysend_preimage: &Option<PaymentPreimage>, invoice_request: Option<&InvoiceRequest>, trampoline_packet: Option<TrampolineOnionPacket>) -> (r: Result<(Payloads, u64, u32), APIError>)
+    ensures r matches Ok(t) ==> t.0.id == payloads_of(*path, *recipient_onion, starting_htlc_offset, *keysend_preimage, trampoline_packet) && t.1 == amount_of(*path, *recipient_onion, trampoline_packet) && t.2 as int == starting_htlc_offset + path.delta
+{ unimplemented!() }
+#[verifier::external_body] pub fn construct_onion_keys(secp_ctx: &&Secp256k1, path: &&Path, session_priv: &SecretKey) -> (r: OnionKeys) ensures r.id == keys_of(**path, *session_priv) { unimplemented!() }
+#[verifier::external_body] pub fn construct_onion_packet(payloads: Payloads, onion_keys: OnionKeys, prng_seed: [u8; 32], associated_data: &PaymentHash) -> (r: Result<OnionPacket, ()>)
+    ensures r matches Ok(p) ==> p.id == packet_of(payloads.id, onion_keys.id, prng_seed, *associated_data) { unimplemented!() }
+//@extract lightning/src/ln/onion_utils.rs :: fn create_payment_onion_internal
+//@slice R15
+    let (onion_payloads, htlc_msat, htlc_cltv) = build_onion_payloads($args:any)?; $rest:any Ok(($r:seq)) }
+//@with
+    fn build_packet_for_the_first_hop(secp_ctx: &Secp256k1, path: &Path, session_priv: &SecretKey, outer_onion: &RecipientOnionFields, cur_block_height: u32, payment_hash: &PaymentHash, keysend_preimage: &Option<PaymentPreimage>, invoice_request: Option<&InvoiceRequest>, prng_seed: [u8; 32], trampoline_packet_option: Option<TrampolineOnionPacket>) -> Result<(OnionPacket, u64, u32), APIError> {
+        let (onion_payloads, htlc_msat, htlc_cltv) = build_onion_payloads($args)?; $rest Ok(($r)) }
+//@rw R8 *
+    .map_err(|_| APIError::InvalidRoute { err: $e:seq, })?
+//@with
+    .map_err(|e: ()| -> (o: APIError) { APIError::InvalidRoute { err: () } })?
+//@ret r
+//@requires
+    cur_block_height as int + path.delta <= u32::MAX,
+//@ensures P C14 the-amount-and-expiry-the-sender-locks-in-on-the-first-channel-are-the-ones-the-payloads-inside-the-packet-were-built-for-and-the-packet-is-keyed-to-this-path-session-and-payment-hash
+    r matches Ok(t) ==> t.1 == amount_of(*path, *outer_onion, trampoline_packet_option) && t.2 as int == cur_block_height + path.delta
+        && t.0.id == packet_of(payloads_of(*path, *outer_onion, cur_block_height, *keysend_preimage, trampoline_packet_option), keys_of(*path, *session_priv), prng_seed, *payment_hash),
+//@mutant payloads_built_for_another_height_than_the_expiry_locked_in
+    &path, outer_onion, cur_block_height,
+//@with
+    &path, outer_onion, cur_block_height + 1,
 //@end
 }
 }
